@@ -97,6 +97,19 @@ CALLED = [
     "Select(ds, lambda {A}: Select({A}.so_jets, lambda {C}, {Q}={A}.i_pt: {C}.i_pt + {Q}))",
     "Select(Select(ds, lambda {A}: {A}.o_p), lambda {B}: Count(Where({B}.so_jets, lambda {C}, {Q}={B}.i_pt: {C}.i_pt > {Q})))",
     "Select(ds, lambda {A}: (lambda {P}: Select({A}.so_jets, lambda {C}, {Q}={P} + 1: (lambda {P}: {P} + {Q})({C}.i_pt)))({A}.i_eta))",
+    # call shapes python binds in other ways than name by name: *args / **kwargs / positional-only / keyword-only parameters, starred arguments
+    "Select(ds, lambda {A}: (lambda {P}, *{Q}: {P} + len({Q}) + {Q}[0])({A}.i_pt, {A}.i_eta, 3))",
+    "Select(ds, lambda {A}: (lambda {P}, /, {Q}: {P} - {Q})(*({A}.i_pt, {A}.i_eta)))",
+    "Select(ds, lambda {A}: (lambda {P}, *, {Q}=2: {P} - {Q})({A}.i_pt) + (lambda {P}, *, {Q}: {P} - {Q})({A}.i_pt, {Q}={A}.i_eta))",
+    "Select(ds, lambda {A}: (lambda {P}, **{Q}: {P} + {Q}['k'])({A}.i_pt, k={A}.i_eta))",
+    "Select(ds, lambda {A}: (lambda {P}, /: Select({A}.so_jets, lambda {C}, /: {C}.i_pt + {P}))({A}.i_eta))",
+    "Select(ds, lambda {A}: (lambda {P}: Select({A}.so_jets, lambda *{P}: {P}[0].i_pt))({A}.i_eta))",
+    "Select(ds, lambda {A}: (lambda {P}: Select({A}.so_jets, lambda {C}, *, {P}=1: {C}.i_pt + {P}))({A}.i_eta))",
+    # operators that get their lambda by keyword
+    "Where(ds, filter=lambda {A}: {A}.i_pt > 1)",
+    "Select(Select(ds, f=lambda {A}: {A}.o_p), lambda {B}: {B}.i_pt)",
+    "Select(ds, lambda {A}: Count(Where(Select({A}.so_jets, f=lambda {C}: {C}.i_pt), filter=lambda {B}: {B} > {A}.i_eta)))",
+    "SelectMany(Select(ds, lambda {A}: {A}.so_jets), func=lambda {B}: Select({B}, lambda {C}: {C}.i_pt))",
     # lambdas without parameters
     "Select(Select(ds, lambda {A}: First({A}.so_jets)), lambda {B}: (lambda: 1000)() + {B}.i_pt)",
     "Select(Select(ds, lambda {A}: {A}.o_p), lambda {B}: Count(Select({B}.so_jets, lambda {C}: (lambda: {B}.i_eta)() + {C}.i_pt + {B}.i_pt)))",
@@ -133,6 +146,9 @@ LITERAL = [
     "Select(ds, lambda {A}: {{'a': {A}.i_pt, 'b': {A}.i_eta}}['b'])",
     "Select(ds, lambda {A}: {{'a': {A}.i_pt, 'b': {A}.i_eta}}.a)",
     "Select(ds, lambda {A}: (({A}.i_pt, {A}.o_p), {A}.i_eta)[0][1].i_pt)",
+    # starred elements in a tuple / list display that is indexed
+    "Select(ds, lambda {A}: (*({A}.i_pt, 1), {A}.i_eta)[2] + (*({A}.i_pt, 1), {A}.i_eta)[0])",
+    "Select(Select(ds, lambda {A}: ({A}.i_pt, {A}.i_eta)), lambda {B}: [*{B}, 5][1] + [5, *{B}][1])",
     # a dictionary display that repeats a key: Python keeps the last value
     "Select(ds, lambda {A}: {{'a': {A}.i_pt, 'a': {A}.i_eta}}['a'])",
     "Select(ds, lambda {A}: {{'a': {A}.i_pt, 'b': 1, 'a': {A}.i_eta}}.a)",
